@@ -609,7 +609,8 @@ func TestC16Grid(t *testing.T) {
 		"len": {K: "int", S: "5"},
 		"max": {K: "string", S: "shadowed"},
 		"__v": {K: "int", S: "7"},
-		"nsl": {K: "nilstrs"}, "nmp": {K: "nilmap"},
+		"nsl": {K: "nilstrs"}, "nmp": {K: "nilmap"}, "nt": {K: "niltime"},
+		"cs": {K: "map", M: map[string]spec.V{"ID": {K: "int", S: "1"}, "Id": {K: "int", S: "2"}, "name": {K: "string", S: "x"}}},
 		"_": {K: "string", S: "2024-01-02T03:04:05Z"},
 		"m": {K: "map", M: map[string]spec.V{"nsl": {K: "nilslice"}, "nmp": {K: "nilmapint"}, "__v": {K: "string", S: "123"}, "_": {K: "time", S: "0001-01-01T00:00:00Z"}, "a": {K: "int", S: "0"}, "n": {K: "nil"}, "np": {K: "nilptr"}, "len": {K: "int", S: "9"},
 			"b":  {K: "map", M: map[string]spec.V{"a": {K: "float64", S: "0.1"}, "ns": {K: "nilS"}, "m": {K: "map", M: map[string]spec.V{"a": {K: "string", S: "deep"}}}}},
@@ -623,7 +624,7 @@ func TestC16Grid(t *testing.T) {
 		"b": {K: "dyn", L: []spec.V{{K: "int", S: "41", N: "Age"}, {K: "mapint", N: "Any", M: map[string]spec.V{"a": {K: "int", S: "0"}}}, {K: "string", S: "bob", N: "Name"}, {K: "float64", S: "0", N: "Score"}}},
 		"c": {K: "dyn", L: []spec.V{{K: "float64", S: "2.5", N: "Score"}, {K: "string", S: "", N: "Name"}}},
 	}
-	keys := []string{"a", "b", "n", "np", "ns", "m", "mi", "ms", "st", "len", "max", "zz", "Name", "Age", "Score", "Inner", "P", "Any", "Label", "N", "i", "s", "__v", "_", "nsl", "nmp"}
+	keys := []string{"a", "b", "n", "np", "ns", "m", "mi", "ms", "st", "len", "max", "zz", "Name", "Age", "Score", "Inner", "P", "Any", "Label", "N", "i", "s", "__v", "_", "nsl", "nmp", "nt", "cs", "id", "NAME"}
 	run := h.Begin("C16", "grid", fmt.Sprintf("bounded-exhaustive: one rich data map (nil, typed nil pointers at top level and inside maps, zero-valued int/string entries, typed maps with zero values, nested maps, structs with zero fields / nil pointer / interface holding a map, keys 'len' and 'max' colliding with builtins, keys '__v' and '_', strings that look like a timestamp or a number, Go's zero time, typed nil slices and maps) x every path root[.|!.]k1[.|!.]k2 over a %d-key universe (depth 0-2 with both access forms at every position), rooted at the bare name and at 'this', plus a runner without a map; oracle as in the random part; non-trivial as in the random part", len(keys)))
 	defer run.End(t)
 	var idx int64
